@@ -1,5 +1,6 @@
 import IV.Model.Proto
 import IV.Model.TextFormats
+import IV.Model.TextFormatsExt
 import IV.Gen.Matchers
 import IV.Gen.IniChars
 open IV IV.Proto IV.TextFormats
@@ -67,6 +68,17 @@ def decTree (f : String) : Option IniTree :=
       | _ => none))
   | _ => none
 
+/-- "X" + triples joined by ',', a triple = section ":" option ":" (N | S value) -/
+def decTriples (f : String) : Option (List (Str × Str × Option Str)) :=
+  match f.toList with
+  | 'X' :: rest =>
+    if rest.isEmpty then some [] else
+    sequenceOpt ((String.ofList rest).splitOn "," |>.map (fun t =>
+      match t.splitOn ":" with
+      | [a, b, c] => do let a ← decStr a; let b ← decStr b; let c ← decOptStr c; pure (a, b, c)
+      | _ => none))
+  | _ => none
+
 def decMax (f : String) : Option (Option Nat) :=
   match decInt f with
   | some i => if i < 0 then some none else some (some i.toNat)
@@ -74,7 +86,7 @@ def decMax (f : String) : Option (Option Nat) :=
 
 def errName : Err → String
   | .valueError => "ValueError" | .indexError => "IndexError" | .parseException => "ParseException"
-  | .noSection => "NoSectionError" | .noOption => "NoOptionError"
+  | .noSection => "NoSectionError" | .noOption => "NoOptionError" | .keyError => "KeyError"
 
 def showOpt : Option Str → String
   | none => "N" | some s => "S" ++ encStr s
@@ -176,6 +188,24 @@ def handle (fs : List String) : String :=
     match go calls with
     | some rs => " | ".intercalate rs
     | none => "bad-op"
+  | ["unsplit", cont, keep, ls] => match decStr cont, decBool keep, decStrList ls with
+    | some cont, some keep, some ls => "ok " ++ showList (unsplitLines ls cont keep)
+    | _, _, _ => "bad-op"
+  | ["optlist", os, kv, sq, s] => match decStr os, decOptStr kv, decBool sq, decStr s with
+    | some os, some kv, some sq, some s => (match optlistToDict s os kv sq with
+      | .ok d => "ok r" ++ ",".intercalate (d.map (fun p => encStr p.1 ++ ":" ++ showOpt p.2))
+      | .error e => "err " ++ errName e)
+    | _, _, _, _ => "bad-op"
+  | ["iniset", anv, ls, sets, qs] => match decBool anv, decStrList ls, decTriples sets, decPairs qs with
+    | some anv, some ls, some sets, some qs => if skipsEmpty ls then "skip" else (match parseIni IV.Gen.IniChars.alphabet ls with
+      | none => "parse-error"
+      | some t =>
+        let r := sets.foldl (fun (acc : IniDict × List String) s =>
+          match iniSet acc.1 s.1 s.2.1 s.2.2 with
+          | .ok d' => (d', acc.2 ++ ["ok"])
+          | .error e => (acc.1, acc.2 ++ [errName e])) (iniView anv t, [])
+        ",".intercalate r.2 ++ "#" ++ iniAnswer r.1 qs)
+    | _, _, _, _ => "bad-op"
   | ["sort", ks] => match decStrList ks with
     | some ks => showList (sortKeys ks)
     | none => "bad-op"
@@ -187,7 +217,7 @@ def handle (fs : List String) : String :=
     | some anv, some t, some qs => iniAnswer (iniView anv t) qs
     | _, _, _ => "bad-op"
   | ["initext", anv, ls, qs] => match decBool anv, decStrList ls, decPairs qs with
-    | some anv, some ls, some qs => (match parseIni IV.Gen.IniChars.alphabet ls with
+    | some anv, some ls, some qs => if skipsEmpty ls then "skip" else (match parseIni IV.Gen.IniChars.alphabet ls with
       | none => "parse-error"
       | some t => showTree (applyDefaults t) ++ "#" ++ iniAnswer (iniView anv t) qs)
     | _, _, _ => "bad-op"
